@@ -48,7 +48,11 @@ func (d *l2) logf(f string, a ...any) { d.trace = append(d.trace, fmt.Sprintf(f,
 func (d *l2) fail(sig, f string, a ...any) {
 	v18(d.rt, "view."+sig, "%s\n  trace: %s", fmt.Sprintf(f, a...), strings.Join(d.trace, " ; "))
 }
-func (d *l2) data() string { d.seq++; return fmt.Sprintf("v%d", d.seq) }
+func (d *l2) data() string {
+	d.seq++
+	pad := []int{0, 0, 3, 40, 90}[rapid.IntRange(0, 4).Draw(d.rt, "pad")]
+	return fmt.Sprintf("v%d", d.seq) + strings.Repeat("x", pad)
+}
 
 func (d *l2) lastTerm() uint64 { t, _ := d.ref.Term(d.ref.Last()); return t }
 
@@ -79,7 +83,7 @@ func (d *l2) compare(when string) {
 		}
 		// size-limited reads from a drawn position
 		from := rapid.Uint64Range(lo, li).Draw(d.rt, "slicefrom")
-		mx := []uint64{0, 1, 10, 25, 60}[rapid.IntRange(0, 4).Draw(d.rt, "slicemax")]
+		mx := []uint64{0, 1, 10, 25, 60, 120, 250}[rapid.IntRange(0, 6).Draw(d.rt, "slicemax")]
 		lim, err := d.l.Slice(from, li+1, mx)
 		if err != nil {
 			d.fail("slice_error", "%s: slice(%d,%d,%d): %v", when, from, li+1, mx, err)
